@@ -157,9 +157,9 @@ theorem run_writePatchedResult_backup {s : DState} {p b : Bytes} {m0 : Nat} (o :
   have hne : p ≠ backupName o p := fun e => backupName_ne o p e.symm
   unfold writePatchedResult
   simp only [hfmt, hop, Bool.false_eq_true, if_false, Bool.false_and, hnm, if_true]
-  rw [run_bind, run_makeWritable_noFix hnf]
-  simp only []
   rw [run_bind, run_makeBackupFor_file o hcwd h hnot hdirs hbdir hf]
+  simp only []
+  rw [run_bind, run_makeWritable_noFix hnf]
   simp only []
   rw [run_bind, run_writeFile_new content (by exact hcwd)
     (by show (Fs.set _ _ _).lookup p = none
